@@ -78,7 +78,7 @@ def effective_options(opts):
 def gen_apps(rng, specs, n_apps=(1, 3), n_progs=(1, 3), managed_p=0.85, max_numprocs=2, loads=(0, 30),
              seq_max=3, per_instance_diff=0.0, allow_wait_exit=False, distribution=None,
              startsecs=(0, 4), stopwaitsecs=(1, 4), strategies=True, identifiers_p=0.3,
-             autorestart=('false', 'false', 'unexpected')):
+             autorestart=('false', 'false', 'unexpected'), supvisors_failure_p=0.0):
     """ Returns (rules_model, groups_by_nick).
 
     rules_model = {app: {'managed': bool, 'start_sequence', 'stop_sequence', 'distribution', 'identifiers',
@@ -119,6 +119,9 @@ def gen_apps(rng, specs, n_apps=(1, 3), n_progs=(1, 3), managed_p=0.85, max_nump
                 prog['identifiers'] = ['*'] if rng.random() > identifiers_p else \
                     rng.sample(nicks, rng.randint(1, len(nicks)))
                 prog['running_failure_strategy'] = rng.choice([None] + RUNNING_FAILURE)
+                if supvisors_failure_p and rng.random() < supvisors_failure_p:
+                    # a crash of this program restarts / shuts down the whole Supvisors
+                    prog['running_failure_strategy'] = rng.choice(['RESTART', 'SHUTDOWN'])
                 prog['starting_failure_strategy'] = rng.choice([None] + STARTING_FAILURE)
             app['programs'][prog_name] = prog
         model[app_name] = app
